@@ -124,6 +124,17 @@ def run(ck):
               "%s is not located from the left with the expected separator (forward: %s, reverse: %s): names whose later part contains the separator are split wrongly"
               % (what, [t["f"]["name"] for (_, t) in fw], [t["f"]["name"] for (_, t) in rv]), f.loc())
     name_grammar_rules(ck)
+    # Amount text form: every representable amount parses back. Digits are accumulated with checked_mul(10) / checked_add(d)
+    # only - a hand-written overflow guard in front of a raw `acc * 10 + d` refuses (or wraps for) values next to u64::MAX
+    AP = "<" + CC + "::types::Amount as std::str::FromStr>::from_str"
+    bodies = [Fn(b) for p0 in sorted(crate("rs", CC).paths()) if p0 == AP or p0.startswith(AP + "::") for b in crate("rs", CC).get_all(p0)]
+    if ck.anchor(len(bodies) >= 1, "CALLEE", AP, "Amount::from_str"):
+        rawmul = [(g.path, st["line"]) for g in bodies for bi in g.reachable() for st in g.stmts(bi) if st.get("rv", {}).get("k") == "bin" and st["rv"]["op"].startswith("Mul")]
+        cm = sum(len(g.calls(r"::checked_mul$")) for g in bodies)
+        ca = sum(len(g.calls(r"::checked_add$")) for g in bodies)
+        ck.ob("CALLEE", AP, "digits-accumulated-with-checked-arithmetic", not rawmul and cm >= 2 and ca >= 2,
+              "no raw multiplication; %d checked_mul and %d checked_add" % (cm, ca) if not rawmul and cm >= 2 and ca >= 2 else
+              "the amount parser multiplies without checked_mul (%s) or lacks the checked steps (checked_mul %d, checked_add %d): amounts next to u64::MAX are refused or wrap" % (rawmul[:2], cm, ca), bodies[0].loc())
     # decoding arbitrary bytes is total: input-driven ranges of fixed-size buffers stay inside them
     from .codec import array_range_sweep
     array_range_sweep(ck, crate("rs", CC), re.compile(r"Deserial.*::deserial$|::deserial_[a-z_]+$|FromStr>::from_str$"), floor=3, exceptions={
